@@ -7,7 +7,8 @@ import Cppcms.C12.Spec
   does; one token `res/consumed/hasFile/size` per `consume` call, then `F` and the finished files.
 * `ct <bytes>` : `http::content_type` : media type and parameters.
 * `form <bytes>` : `parse_form_urlencoded` : return value and the pairs inserted.
-* `rq <contentType> <cl> <contentLimit> <multipartLimit> <memLimit> <diskOk> <chunk>*` : whole request.
+* `rq <flt> <contentType> <cl> <contentLimit> <multipartLimit> <memLimit> <diskOk> <bufSize> <query> <chunk>*` : whole request.
+* `hdrok <bytes>` : is the header block accepted as a whole, and read as what.
 * `enc <bkey> (<name> <filename> <mime> <data>)*` : `Spec.encode`.
 * `encform (<k> <v>)*` : `Spec.encodeForm`.
 All byte strings in hex (`-` = empty). -/
@@ -24,11 +25,11 @@ def pairsStr (l : List (Bytes × Bytes)) : String :=
 def filesStr (l : List Part) : String :=
   if l.isEmpty then "-" else ";".intercalate (l.map partStr)
 
-/-- feed one chunk: tokens for each consume call; `none` state = stop (error) -/
-def mpChunk (cfg : PCfg) : Nat → P → Bytes → List String → (Option P) × List String
-  | 0, p, _, acc => (some p, acc)
+/-- feed one chunk: tokens for each consume call; the flag says "stop" (error) -/
+def mpChunk (cfg : PCfg) : Nat → P → Bytes → List String → Bool × P × List String
+  | 0, p, _, acc => (false, p, acc)
   | fuel + 1, p, buf, acc =>
-    if buf.isEmpty then (some p, acc) else
+    if buf.isEmpty then (false, p, acc) else
     let (r, p', rest) := consume cfg p buf
     let consumed := buf.length - rest.length
     let size := match r with
@@ -38,14 +39,14 @@ def mpChunk (cfg : PCfg) : Nat → P → Bytes → List String → (Option P) ×
     let tok := s!"{r.idx}/{consumed}/{boolStr p'.fileReady}/{size}"
     match r with
     | .metaReady | .contentPartial | .contentReady | .continueInput | .eof => mpChunk cfg fuel p' rest (tok :: acc)
-    | _ => (none, tok :: acc)
+    | _ => (true, p', tok :: acc)
 
 def mpRun (cfg : PCfg) : P → List Bytes → List String → P × List String
   | p, [], acc => (p, acc)
   | p, c :: cs, acc =>
     match mpChunk cfg (c.length + 1) p c acc with
-    | (some p', acc') => mpRun cfg p' cs acc'
-    | (none, acc') => (p, acc')
+    | (false, p', acc') => mpRun cfg p' cs acc'
+    | (true, p', acc') => (p', acc')
 
 def parseParts : List Bytes → Option (List Part)
   | [] => some []
@@ -61,6 +62,13 @@ def seenStr : Seen → String
   | .refused code => s!"status {code}"
   | .waiting => "waiting"
   | .handled post files => s!"status 200 post {pairsStr post} files {filesStr files}"
+
+def evStr : Ev → String
+  | .newFile n sz => s!"new:{toHex n}:{sz}"
+  | .progress sz => s!"prog:{sz}"
+  | .dataReady sz => s!"ready:{sz}"
+  | .endOfContent => "end"
+  | .rawChunk n => s!"c{n}"
 
 def step (_ : Unit) (line : String) : Unit × String :=
   let r : String :=
@@ -86,11 +94,21 @@ def step (_ : Unit) (line : String) : Unit × String :=
       match parseHex h with
       | some s => let (pairs, ok) := parseForm s; s!"{boolStr ok} {pairsStr (mmOfList pairs)}"
       | none => "bad-op"
-    | "rq" :: ct :: cl :: climit :: mlimit :: mem :: disk :: chunks =>
-      match parseHex ct, cl.toNat?, climit.toNat?, mlimit.toNat?, mem.toNat?, hexList chunks with
-      | some ct, some cl, some climit, some mlimit, some mem, some chunks =>
-        seenStr (request { contentLimit := climit, multipartLimit := mlimit, memLimit := mem, diskOk := disk == "1" } ct cl chunks)
-      | _, _, _, _, _, _ => "bad-op"
+    | "rq" :: flt :: ct :: cl :: climit :: mlimit :: mem :: disk :: bufsize :: query :: chunks =>
+      match flt.toNat?, parseHex ct, cl.toNat?, climit.toNat?, mlimit.toNat?, mem.toNat?, bufsize.toNat?, parseHex query, hexList chunks with
+      | some flt, some ct, some cl, some climit, some mlimit, some mem, some bufsize, some query, some chunks =>
+        let o := requestIO { flt := flt, contentType := ct, cl := cl, bufSize := bufsize, query := query, chunks := chunks,
+                             lim := { contentLimit := climit, multipartLimit := mlimit, memLimit := mem, diskOk := disk == "1" } }
+        let sizes := if o.sizes.isEmpty then "-" else ",".intercalate (o.sizes.map toString)
+        let evs := if o.events.isEmpty then "-" else ",".intercalate (o.events.map evStr)
+        s!"{seenStr o.seen} get {pairsStr o.get} | sizes {sizes} raw {toHex o.raw} ev {evs}"
+      | _, _, _, _, _, _, _, _, _ => "bad-op"
+    | ["hdrok", h] =>
+      match parseHex h with
+      | some h => (match processHeader h with
+                   | some m => s!"{boolStr (hdrEndsAt 0 h)} {toHex m.name},{toHex m.filename},{toHex m.mime}"
+                   | none => "none")
+      | none => "bad-op"
     | "enc" :: bkey :: parts =>
       match parseHex bkey, (hexList parts).bind parseParts with
       | some b, some ps => toHex (Spec.encode b ps)
